@@ -431,7 +431,9 @@ func c16Workload(c *Check) []c16Prog {
 	{
 		pre := "x := 1\ns := []int{1}\nt := \"abc\"\nfunc one() int {\n\treturn 1\n}\nfunc two() (int, int) {\n\treturn 1, 2\n}\nfunc vf() {\n}\n"
 		soles := []string{"5", "x", "t", "\"a\"", "`r`", "true", "nil", "(x)", "((x))", "itoa(5)", "itoa(x)", "len(t)", "len(s)", "exists(t)", "read(t)", "input()", "input(t)", "copy(s, s)", "x + 1", "x == 1", "!true", "x == 1 && true", "one()", "two()", "vf()", "@true()", "[]int{}", "[]int{1}",
-			"s", "x++", "x += 1", "x = 2", "y := 1", "var y int", "var y []int", "y, z := two()", "s[0] = 1", "print()", "print(x)", "panic(t)", "write(t, t)", "y := s[0]", "y := t[1:2]", "y := itoa(x)"}
+			"s", "x++", "x += 1", "x = 2", "y := 1", "var y int", "var y []int", "y, z := two()", "s[0] = 1", "print()", "print(x)", "panic(t)", "write(t, t)", "y := s[0]", "y := t[1:2]", "y := itoa(x)",
+			// jumps as the only statement: accepted in some blocks, refused in others; wherever one is accepted the block is well formed
+			"break", "continue", "return", "return 1"}
 		blocks := map[string]string{
 			"func":      "func h() {\n\t$S\n}\nh()\n",
 			"func-int":  "func h() int {\n\t$S\n\treturn 1\n}\nprint(h())\n",
